@@ -222,6 +222,8 @@ class TdmsSegment(object):
             if obj.data_type == String:
                 total_size = object_data_size(obj.data_type, obj.data)
                 data_index.append(Uint64(total_size))
+                # The index length includes the extra 8 bytes for the total size
+                data_index[0] = Uint32(28)
 
             return data_index
         else:
